@@ -1095,4 +1095,20 @@ def checkGlvLadderBound (c : GlvCfg) : Bool :=
   let m := min c.curve.r (2 ^ (64 * c.scalarLimbs - 1))
   decide ((c.n 0).natAbs + (c.n 2).natAbs < m) && decide ((c.n 1).natAbs + (c.n 3).natAbs < m)
 
+/-! ### well-formedness checks added after the meaning lemmas (`Ark/Props/C16Meaning2.lean`) showed what the
+    original shape checkers leave open -/
+
+/-- every cofactor limb of a twisted Edwards configuration is a 64-bit word (`checkSwShape` has this conjunct) -/
+def checkTeCofactorLimbs (c : TeCfg) : Bool :=
+  allB (fun x => decide (x < 2 ^ 64)) c.cofactorLimbs
+
+/-- the isogenous curve of a WB configuration lives over the same tower as the target curve and is itself a
+    well-formed short Weierstrass configuration (the other WB checkers evaluate its generator in `c.curve.tower`) -/
+def checkWbIsoShape (c : WbCfg) : Bool :=
+  checkSwShape c.iso && checkSwShape c.curve
+
+/-- the two precomputed Elligator 2 constants are reduced elements of the base field -/
+def checkElligatorConstsWf (c : Elligator2Cfg) : Bool :=
+  wf c.curve.tower c.oneOverCoeffBSquare && wf c.curve.tower c.coeffAOverCoeffB
+
 end Ark.Cfg
